@@ -95,6 +95,10 @@ def runC08 (t : Tier) : Emit Unit := do
       -- and the readers that can be rewound / peeked lose nothing
       for kind in [ReaderKind.seek, .bufio] do
         emit "C08" (demuxCase big { view := .items, packetAPI := true, size := 0, kind := kind } none (some ref.model) "auto-equals-explicit-packets")
+      -- bufio.Reader buffers around the 193 bytes auto-detection peeks: 193 and more are peeked, 192 is read like a plain reader
+      for nm in ["bufio193", "bufio194", "bufio256"] do
+        emit "C08" (demuxCase big { view := .items, packetAPI := true, size := 0, kind := .bufio, readerName := some nm, chunks := [50] } none (some ref.model) "auto-bufio-buffer-sizes")
+      emit "C08" (demuxCase big { view := .items, packetAPI := true, size := 0, kind := .bufioSmall, readerName := some "bufio192", chunks := [50] } none (some expItems) "auto-bufio-buffer-sizes")
   -- 188-byte packets with sync-byte values right behind the second packet's sync byte (PID 0x0047, payload bytes 0x47)
   for _ in [0:(if t.quick then 3 else 12)] do
     let n ← liftGen (randRange 200 500)
@@ -317,6 +321,12 @@ def runC19 (t : Tier) : Emit Unit := do
     emit "C19" (demuxCase bs2 { view := .seq, parser := .dropper } none none "parser-dropper-log")
     emit "C19" (demuxCase bs2 { view := .seq, parser := .observer } none none "parser-observer-log")
     emit "C19" (demuxCase bs2 { view := .seq, parser := .failing } none none "parser-failing")
+    -- a parser that fails (skip = false): every unit handed over before the end of the stream yields the parser's error, never default data
+    -- (units flushed by the end-of-stream drain are logged, not returned: every PID's last unit)
+    let nUnits := ((perPID m2.units).map fun (pid, _, _) => (m2.units.filter (·.pid == pid)).length - 1).sum
+    let calls := List.replicate (nUnits + 2) Call.next
+    emit "C19" (demuxCase bs2 { view := .outcomes, parser := .failing } (some calls)
+      (some (",".intercalate (List.replicate nUnits "parser" ++ ["eof", "eof"]))) "parser-failing-outcomes")
 
 /-! ### C20 -/
 def runC20 (t : Tier) : Emit Unit := do
@@ -411,8 +421,8 @@ def runC07 (t : Tier) : Emit Unit := do
       emit "C07" (demuxCase m'.bytes { view := .perpid } none (some exp) "merge")
     -- repeated PATs anywhere in the multiplex (also between the packets of a PMT unit): a PMT PID depends on a PAT
     -- having been delivered earlier, not on where later PATs fall
-    let mr ← liftGen (genStream { pesPIDs := [0x100], pmtPIDs := [0x1000], dvb := false, unitsPerPID := 2, maxPayload := 300,
-                                  multiPMT := 3, patRepeats := 2 })
+    let mr ← liftGen (genStream { pesPIDs := [0x100], pmtPIDs := if i % 2 = 0 then [0x1000] else [0x1000, 0x1001, 0x1002], dvb := false,
+                                  unitsPerPID := 2, maxPayload := 300, multiPMT := 3, patRepeats := 2, splitPAT := i % 2 = 1 })
     let expR := expectedStr mr
     let perR := perPID mr.units
     let firstPat := (mr.units.find? (·.pid == 0)).map (·.chunks.length) |>.getD 0
@@ -480,7 +490,16 @@ def runC07 (t : Tier) : Emit Unit := do
 def runC16 (t : Tier) : Emit Unit := do
   for i in [0:(if t.quick then 10 else 60)] do
     let m ← liftGen (smallStream i)
-    let bs := m.bytes
+    -- null packets (their payload is returned by NextPacket too) and adaptation-only packets in between
+    let mut out : List Packet := []
+    let mut ncc := 0
+    for p in m.packets do
+      if (← liftGen (chance 1 4)) then
+        let junk ← liftGen (randBytes 184)
+        out := out ++ [{ nullPacket ncc with payload := junk }]
+        ncc := (ncc + 1) % 16
+      out := out ++ [p]
+    let bs := if i % 2 = 0 then bytesOf out else m.bytes
     for api in [false, true] do
       let cfg : DemuxCfg := { packetAPI := api, size := if i % 2 = 0 then 188 else 0, kind := if i % 3 = 0 then .bufio else .seek }
       let total := callsToEOF (mkDemux bs cfg) api (bs.length / 188 + 8) 0
